@@ -9,6 +9,7 @@ echo "seed regression at /repo $(git -C /repo log --oneline -1 | cut -c1-60) / v
 for d in /verif/seeded/*/; do
   n=$(basename $d); p=$(python3 -c "import json;print(json.load(open('$d/meta.json'))['breaks_property'])")
   f=$d/patch_rebased.diff; [ -f $f ] || f=$d/patch.diff
+  if grep -q no_longer_applicable $d/meta.json; then echo "$n $p not-applicable-any-more (see meta.json)" >> $OUT; continue; fi
   if ! git -C $WT apply $f 2>/dev/null; then echo "$n $p PATCH-DOES-NOT-APPLY" >> $OUT; continue; fi
   VERIF_REPO=$WT VERIF_BUILD=$B VERIF_EVIDENCE=$E /verif/check $p --tier quick --no-validate > /tmp/seedreg.$$.log 2>&1; rc=$?
   v=$(grep -c '^VIOLATION' /tmp/seedreg.$$.log)
